@@ -101,6 +101,16 @@ class ProgramGen:
                 s = self.any_symbol(None if labels else False)
                 return ("sym", s) if s else ("lit", 7)
             return ("dot",) if allow_dot else ("lit", 4)
+        if self.f.get("linear"):
+            # relocation fragment: an address plus/minus numbers, or a difference of addresses
+            k = rng.random()
+            a = self.any_symbol(True) if labels else None
+            if a is None or k < 0.2:
+                return ("bin", rng.choice(["+", "-", "*"]), ("lit", rng.randrange(0, 40)), ("lit", rng.randrange(1, 9)))
+            if k < 0.6:
+                return ("bin", rng.choice(["+", "-"]), ("sym", a), ("lit", rng.randrange(0, 20)))
+            b = self.any_symbol(True)
+            return ("bin", "+", ("bin", "-", ("sym", a), ("sym", b)), ("lit", rng.randrange(0, 20)))
         op = rng.choice(INFIX_SAFE + ["+", "-", "+"])
         return ("bin", op, self.small_expr(depth - 1, allow_dot, labels), self.small_expr(depth - 1, allow_dot, labels))
 
@@ -122,6 +132,8 @@ class ProgramGen:
     def operand(self):
         rng = self.rng
         k = rng.random()
+        if self.f.get("pic") and 0.4 <= k < 0.8:
+            k = 0.85       # position-independent code: no immediate/absolute/index label references
         if k < 0.4:
             return ("raw", rng.choice(RM_SIMPLE))
         if k < 0.55:
@@ -130,6 +142,11 @@ class ProgramGen:
             return ("abs", self.small_expr(1, allow_dot=False))
         if k < 0.8:
             return ("idx", self.small_expr(1, allow_dot=False, labels=False), rng.randrange(6))
+        if self.f.get("pic"):
+            # targets inside the program only: a label plus a small number
+            lab = self.any_symbol(True)
+            tgt = ("bin", "+", ("sym", lab), ("lit", rng.randrange(0, 12))) if lab else ("dot",)
+            return ("rel" if k < 0.9 else "reldef", tgt)
         if k < 0.9:
             return ("rel", self.small_expr(1))
         return ("reldef", self.small_expr(1, allow_dot=False))
@@ -177,6 +194,8 @@ class ProgramGen:
         elif k < 0.68:
             n = rng.randint(1, 4)
             kind = rng.choice([".word", ".word", ".byte", ".dword", "implicit"])
+            if self.f.get("linear") and kind == ".dword":
+                kind = ".word"
             if kind != ".byte":
                 self.align_even()
             if kind == ".byte":
